@@ -44,6 +44,49 @@ theorem validation_before_mutation (cfg : Cfg) (now : Int) (c : Coll) (f u up : 
     stepColl cfg now c (.arr [.str "update_many", f, u, up]) = (c, .err e) :=
   Proofs.C08.validation_before_mutation cfg now c f u up e h
 
+/-- **An update with an unknown `$operator` is refused before any document is looked for**
+    (library commit 1244abc): when the operator names of the update document are refused
+    (`validateUpdateOperators`: an unknown key after the first, or an unknown first key next to a
+    `$`-key) — or, on a server before 5.0, an operator is empty — `update_one`, `update_many`,
+    `replace_one` and every bulk request that goes through `_apply_update` raise that error and
+    the collection is THE SAME: not even the expiry pass has run, the filter was not evaluated
+    (a filter that would raise does not get to), no document was matched — also when none would
+    match. -/
+theorem unknown_operator_refused_before_lookup (cfg : Cfg) (now : Int) (c : Coll) (fs dfs : Fields)
+    (f u : Val) (upsert multi : Bool) (e : Err) (hf : patchDT f = .doc fs)
+    (hu : patchDT u = .doc dfs) (h : updatePrecheck cfg dfs = .error e) :
+    applyUpdateColl cfg now c f u upsert multi = (c, .error e) :=
+  Proofs.C08.precheck_before_lookup cfg now c fs dfs f u upsert multi e hf hu h
+
+/-- … and `find_one_and_update` / `find_one_and_replace` check them before the target is looked
+    for: with no match, no upsert and whatever projection, the call raises instead of returning
+    None. -/
+theorem fam_unknown_operator_refused_before_lookup (cfg : Cfg) (now : Int) (c : Coll)
+    (query proj : Val) (ufs : Fields) (upsert : Bool) (sort : Option SortSpec) (after : Bool)
+    (e : Err) (hne : ufs ≠ []) (h : validateUpdateOperators ufs = .error e) :
+    findAndModify cfg now c query proj (some (.doc ufs)) upsert sort after = (c, .error e) :=
+  Proofs.C08Lemmas.fam_precheck_before_lookup cfg now c query proj ufs upsert sort after e hne h
+
+/-- non-vacuity: `{$set: {a: 1}, $typo: 1}` is refused; on a collection whose only document the
+    filter would raise on (`{a: {$in: 3}}` on `a: 1`) — and on the empty one — `update_one` raises
+    the ValueError of the operator check, the collection untouched; `find_one_and_update` with
+    a filter matching nothing likewise -/
+example :
+    let u : Val := .doc [("$set", .doc [("a", .int 1)]), ("$typo", .int 1)]
+    let c : Coll := { docs := [(.int 1, .doc [("_id", .int 1), ("a", .int 1)])], forceCreated := true }
+    (match validateUpdateOperators [("$set", .doc [("a", .int 1)]), ("$typo", .int 1)] with
+     | .error .valueErr => true | _ => false) = true ∧
+    (match (findColl 0 c (.doc [("a", .doc [("$in", .int 3)])])).2 with
+     | .error _ => true | _ => false) = true ∧
+    (match stepColl {} 0 c (.arr [.str "update_one", .doc [("a", .doc [("$in", .int 3)])], u, .bool false]) with
+     | (c', .err .valueErr) => c'.docs == c.docs | _ => false) = true ∧
+    (match stepColl {} 0 {} (.arr [.str "update_many", .doc [], u, .bool true]) with
+     | (c', .err .valueErr) => c'.docs.isEmpty | _ => false) = true ∧
+    (match stepX {} 0 c (.arr [.str "find_one_and_update", .doc [("_id", .int 9)], u, .null, .null,
+        .bool false, .bool false]) with
+     | (c', .err .valueErr) => c'.docs == c.docs | _ => false) = true := by
+  decide +kernel
+
 /-- **Unordered insert_many applies every insert that succeeds on its own**: its final state is
     the state after issuing all inserts one at a time (a failed one changing nothing), provided
     every failure is a write error (anything else aborts the batch). -/
@@ -161,9 +204,10 @@ example : (runX {} [.arr [.str "insert_one", .doc [("_id", .int 1), ("a", .int 1
 /-! ### find_one_and_update / find_one_and_replace / find_one_and_delete -/
 
 /-- A find_one_and_* that raises leaves the collection exactly as it was.  Full statement (for
-    every such call, on every recorded collection): FALSE of the model and of the code — with `return_document=AFTER` the final
-    read-back `find_one(query, projection)` runs after the write, so a projection that raises
-    there (e.g. one mixing inclusion and exclusion) raises with the update or the upsert done. -/
+    every such call, on every recorded collection): FALSE of the model and of the code — with
+    `return_document=AFTER` the final read-back `find_one(query, projection)` runs after the
+    write, so a projection whose refusal DEPENDS ON THE DOCUMENT raises there with the update or
+    the upsert done (known finding `fam-after-projection-on-result`). -/
 def fam_failed_noop_full : Prop :=
   ∀ (cfg : Cfg) (now : Int) (c : Coll) (op : Val), c.Recorded → famOp op = true →
     (stepX cfg now c op).2.isErr = true → Untouched now c (stepX cfg now c op).1
@@ -171,23 +215,57 @@ def fam_failed_noop_full : Prop :=
 theorem fam_failed_noop_full_fails : ¬ fam_failed_noop_full :=
   Proofs.C08Ext.fam_failed_noop_full_fails
 
-/-- the witness: `find_one_and_update({_id: 7}, {$set: {a: 5}}, projection={a: 1, b: 0},
-    upsert=True, return_document=AFTER)` raises ValueError and leaves the upserted document -/
+/-- the witness: on `{_id: 1, a: [1, 2]}`, `find_one_and_update({_id: 1}, {$set: {a: 5}},
+    projection={a: {$slice: 1}}, return_document=AFTER)` — the projection is acceptable in itself
+    and on the document as it was; the update turns `a` into a number and the read-back raises
+    OperationFailure (`$slice` of a non-array), leaving `a: 5` -/
 example : Proofs.C08Ext.famWitnessColl.Recorded ∧ famOp Proofs.C08Ext.famWitnessOp = true ∧
     (stepX {} 0 Proofs.C08Ext.famWitnessColl Proofs.C08Ext.famWitnessOp).2.isErr = true ∧
-    (stepX {} 0 Proofs.C08Ext.famWitnessColl Proofs.C08Ext.famWitnessOp).1.docs.length = 2 :=
+    Proofs.C08Ext.firstAIs (stepX {} 0 Proofs.C08Ext.famWitnessColl Proofs.C08Ext.famWitnessOp).1.docs 5
+      = true ∧
+    Proofs.C08Ext.firstAIs Proofs.C08Ext.famWitnessColl.docs 5 = false ∧
+    projAcceptable (famProj Proofs.C08Ext.famWitnessOp) = true :=
   ⟨Proofs.C08Ext.witness_colls_recorded.1, Proofs.C08Ext.fam_witness⟩
 
 /-- **What holds for every find_one_and_* that raises**: the collection is exactly as it was —
-    unless `return_document=AFTER` was requested, the same call with BEFORE succeeds, and the
-    collection is exactly as that successful call leaves it (the write was done in full; only the
-    read-back raised).  Never a partial write. -/
+    unless `return_document=AFTER` was requested, the projection is acceptable in itself
+    (`Spec.projAcceptable`: applied to the empty document it does not raise), the same call with
+    BEFORE succeeds, and the collection is exactly as that successful call leaves it (the write
+    was done in full; only the read-back raised, on the document the write produced).  Never a
+    partial write.
+    (Until library commit 7781c66 the middle clause was missing: ANY refused projection could
+    be met after the write, on the upsert path — the repaired finding
+    `fam-after-projection-error`.) -/
 theorem fam_failed_partial (cfg : Cfg) (now : Int) (c : Coll) (op : Val) (hr : c.Recorded)
     (hop : famOp op = true) (he : (stepX cfg now c op).2.isErr = true) :
     Untouched now c (stepX cfg now c op).1 ∨
-    (famAfter op = true ∧ (stepX cfg now c (famBefore op)).2.isErr = false ∧
+    (famAfter op = true ∧ projAcceptable (famProj op) = true ∧
+      (stepX cfg now c (famBefore op)).2.isErr = false ∧
       Untouched now (stepX cfg now c (famBefore op)).1 (stepX cfg now c op).1) :=
   Proofs.C08Ext.fam_failed_partial cfg now c op hr hop he
+
+/-- **A projection that is refused whatever the document is refused before the write**: a
+    find_one_and_update / _replace / _delete whose projection is not acceptable in itself (a bad
+    field list, an unsupported projection operator, inclusion mixed with exclusion, colliding
+    paths) and which raises — for that or any other reason — leaves the collection exactly as it
+    was, with `return_document=AFTER` and on the upsert path as well. -/
+theorem fam_refused_projection_noop (cfg : Cfg) (now : Int) (c : Coll) (op : Val) (hr : c.Recorded)
+    (hop : famOp op = true) (hp : projAcceptable (famProj op) = false)
+    (he : (stepX cfg now c op).2.isErr = true) :
+    Untouched now c (stepX cfg now c op).1 := by
+  rcases Proofs.C08Ext.fam_failed_partial cfg now c op hr hop he with h | ⟨_, h, _⟩
+  · exact h
+  · rw [hp] at h; cases h
+
+/-- non-vacuity, and the regression example of the repaired finding `fam-after-projection-error`
+    (its former witness): `find_one_and_update({_id: 7}, {$set: {a: 5}}, projection={a: 1, b: 0},
+    upsert=True, return_document=AFTER)` raises and nothing is upserted -/
+example : Proofs.C08Ext.famRepairedColl.Recorded ∧ famOp Proofs.C08Ext.famRepairedOp = true ∧
+    projAcceptable (famProj Proofs.C08Ext.famRepairedOp) = false ∧
+    (stepX {} 0 Proofs.C08Ext.famRepairedColl Proofs.C08Ext.famRepairedOp).2.isErr = true ∧
+    (stepX {} 0 Proofs.C08Ext.famRepairedColl Proofs.C08Ext.famRepairedOp).1.docs ==
+      Proofs.C08Ext.famRepairedColl.docs :=
+  ⟨Proofs.C08Ext.famRepairedColl_recorded, Proofs.C08Ext.fam_repaired⟩
 
 /-- **find_one_and_delete, and find_one_and_update / _replace with return_document=BEFORE, that
     raise leave the collection exactly as it was** — whatever raised: the filter, the sort, the
